@@ -17,7 +17,16 @@ use crate::core::*;
 use crate::execs::*;
 
 /// (text, detached)
-pub const SNIPPETS: [(&str, bool); 34] = [
+pub const SNIPPETS: [(&str, bool); 40] = [
+    // names that merely start with the name of a variable scrut does not carry over
+    ("TMPFILE=/x; export LANG_CODE=de", false),
+    // names and variables the state carrier itself uses or inherits
+    ("code=mine", false),
+    ("unset HOME", false),
+    ("cd - >/dev/null 2>&1", false),
+    // a function defined before an alias for a word of its body
+    ("say(){ echo \"$@\"; }; af(){ say fn; }", false),
+    ("alias say='say al'", false),
     // variables the state carrier's own commands could trip over
     ("IFS=:", false),
     ("Y='* ? [a] $HOME `x`'", false),
@@ -56,7 +65,9 @@ pub const SNIPPETS: [(&str, bool); 34] = [
     ("Y=\"${Y:-}+\"; export Y", false),
 ];
 
-pub const PROBE: &str = r#"declare -p X Y Z arr m n IFS 2>/dev/null
+pub const PROBE: &str = r#"declare -p X Y Z arr m n IFS TMPFILE LANG_CODE code HOME OLDPWD 2>/dev/null
+declare -f af
+af 2>/dev/null || true
 declare -f f
 declare -f xg
 xg a 2>/dev/null || true
